@@ -26,6 +26,72 @@ def params_in_order(body, call, first_arg, first_param):
 # C17
 # ================================================================================================
 
+def _array_children(F, b, origins, depth=0):
+    """the fields of `self` behind the elements of an array the origins denote (built here, or returned by a local helper)"""
+    out = None
+    for o in origins:
+        if o.path:
+            return None
+        if o.kind == 'aggr':
+            rv = b.blocks[o.key[0]]['stmts'][o.key[1]]['rv']
+            if rv['ak'].get('closure') or rv['ak'].get('adt'):
+                return None
+            elems = []
+            for op in rv['ops']:
+                oo = b.orig_operand(F.operand(op))
+                if not oo or not all(x.kind == 'arg' and x.key == 1 for x in oo):
+                    return None
+                elems.append(tuple(sorted({p[1] for x in oo for p in x.path if isinstance(p, tuple) and p[0] == 'f'})))
+        elif o.kind == 'call' and depth < 2:
+            c = b.calls[o.key]
+            cb = F.callee_body(c)
+            if cb is None or not c.args or not all(x.kind == 'arg' and x.key == 1 and not [p for p in x.path if isinstance(p, tuple)] for x in b.orig_operand(c.args[0])):
+                return None
+            elems = _array_children(F, cb, cb.orig_local(0), depth + 1)
+            if elems is None:
+                return None
+        else:
+            return None
+        if out is not None and out != elems:
+            return None
+        out = elems
+    return out
+
+
+def _forward_loop(ctx, b, c):
+    """True if the single forwarding call sits in a loop that visits both children, a reason (str) if it is such a loop but defective, None otherwise"""
+    F = ctx.F
+    from rules_protocol import guard_edges_on_call as _geoc
+    ro = b.orig_operand(c.args[0])
+    if not ro or not all(o.kind == 'call' and b.calls[o.key].qname == 'std::iter::Iterator::next' for o in ro) or len({o.key for o in ro}) != 1:
+        return None
+    nx = b.calls[next(iter(ro)).key]
+    src = b.orig_operand(nx.args[0])
+    for _ in range(3):  # through into_iter / iter_mut
+        if src and all(o.kind == 'call' and b.calls[o.key].name in ('into_iter', 'iter_mut') and not o.path for o in src):
+            src = frozenset(x for o in src for x in b.orig_operand(b.calls[o.key].args[0]))
+    elems = _array_children(F, b, src)
+    if elems is None:
+        return None
+    if sorted(elems) != [('0',), ('1',)]:
+        return 'forwards to children %s instead of once to each' % (elems,)
+    if not params_in_order(b, c, 1, 2) or len(c.args) != b.argc:
+        return 'parameters are not forwarded in order'
+    inf = ctx.infeasible(b)
+    some_e = [n for n, g in _geoc(b, nx) if g.variants() == frozenset(['Some'])]
+    none_e = {n for n, g in _geoc(b, nx) if g.variants() == frozenset(['None'])}
+    if not some_e or not none_e:
+        return None
+    for e in some_e:
+        seen = b.reach([e], avoid=ctx.both(inf, lambda x: x == c.bb))
+        if nx.bb in seen or any(r in seen for r in b.returns()):
+            return 'a child is skipped on some path'
+    seen = b.reach([0], avoid=ctx.both(inf, lambda x: x in none_e))
+    if any(r in seen for r in b.returns()):
+        return 'the loop over the children can be left before both were visited'
+    return True
+
+
 def rule_tracker(ctx):
     R, F, roles = ctx.R, ctx.F, ctx.roles
     P = ('C17',)
@@ -35,13 +101,24 @@ def rule_tracker(ctx):
         return
     tmethods = [m['name'] for m in trait['methods']]
     # ---- W1: Tracking helpers
+    def end_fn_of(b):
+        # a helper without subjects may hand out a named function instead of a closure: `fn build(&mut self) -> impl FnOnce(..) { start(); end_build }`
+        ds = b.defs.get(0, [])
+        if len(ds) == 1 and ds[0][0] == 'stmt' and ds[0][3]['k'] == 'use' and isinstance(ds[0][3]['op'].get('k'), dict) and 'fn' in ds[0][3]['op']['k']:
+            return F.bodies.get(ds[0][3]['op']['k']['fn'].get('id'))
+        return None
     helpers = [b for b in F.bodies.values() if b.crate == 'pie' and b.kind == 'AssocFn' and b.impl_self and type_head(b.impl_self) == ctx.roles.tracking_adt
-               and not b.impl_trait and b.local_ty(0).startswith('{closure@')]
-    R.floor('W1', 'Tracking start/end helpers', len(helpers), 11, props=P)
+               and not b.impl_trait and (b.local_ty(0).startswith('{closure@') or (b.argc == 1 and end_fn_of(b) is not None))]
+    end_fns = {end_fn_of(b).id: b for b in helpers if not b.local_ty(0).startswith('{closure@')}
+    # the build pair may also be emitted directly by the build entry points (no `build` helper): W8 below then decides the pairing there
+    direct_build = [b for b in F.bodies.values() if b.crate == 'pie' and not b.is_test_code() and b.kind in ('AssocFn', 'Fn') and b.impl_trait != TRK
+                    and not (b.impl_self and type_head(b.impl_self) == ctx.roles.tracking_adt)
+                    and b.find_calls(lambda c: c.trait == TRK and c.name == 'build_start' and not b.blocks[c.bb]['cleanup'])]
+    R.floor('W1', 'Tracking start/end helpers', len(helpers) + (1 if direct_build and not any(b.name == 'build' for b in helpers) else 0), 11, props=P)
     ctx.tracking_helpers = {b.id: b for b in helpers}
     for b in helpers:
         starts = b.find_calls(lambda c: c.trait == TRK)
-        clos = F.closures_of(b)
+        clos = F.closures_of(b) or ([end_fn_of(b)] if end_fn_of(b) is not None else [])
         ok = len(starts) == 1 and len(clos) == 1 and starts[0].name.endswith('_start')
         why = ''
         if not ok:
@@ -116,6 +193,8 @@ def rule_tracker(ctx):
     for body in F.bodies.values():
         if body.crate != 'pie' or body.is_test_code() or body.impl_trait == TRK or (body.impl_self and type_head(body.impl_self) == ctx.roles.tracking_adt) or body.kind == 'Closure':
             continue
+        if body.id in end_fns:
+            continue  # the end half of a helper (W1-helper pairs it with its start, W2-ended enforces its invocation)
         for e in body.find_calls(lambda c: c.trait == TRK and c.name.endswith('_end')):
             sname = e.name[:-4] + '_start'
             starts = {c.bb for c in body.find_calls(lambda c: c.trait == TRK and c.name == sname)}
@@ -126,11 +205,18 @@ def rule_tracker(ctx):
     # ---- W8: a build entry point emits build start (and, by W2, build end) on every path on which it returns
     builders = [b for b in F.bodies.values() if b.crate == 'pie' and not b.is_test_code() and b.kind == 'AssocFn' and
                 any(F.callee_body(c) is not None and F.callee_body(c).name == 'build' and F.callee_body(c).id in ctx.tracking_helpers for c in b.calls.values())]
+    builders += [b for b in direct_build if b not in builders]
     R.floor('W8', 'build entry points', len(builders), 2, props=P)
     for b in builders:
         hb = {c.bb for c in b.calls.values() if F.callee_body(c) is not None and F.callee_body(c).name == 'build' and F.callee_body(c).id in ctx.tracking_helpers}
+        hb |= {c.bb for c in b.calls.values() if c.trait == TRK and c.name == 'build_start'}
         seen = b.reach([0], avoid=ctx.both(ctx.infeasible(b), lambda n: n in hb))
         esc = [r for r in b.returns() if r in seen]
+        if not esc and b in direct_build:
+            # emitted directly: the end event is this function's own obligation (no helper closure whose call W2 enforces)
+            eb = {c.bb for c in b.calls.values() if c.trait == TRK and c.name == 'build_end' and not b.blocks[c.bb]['cleanup']}
+            seen = b.reach([0], avoid=ctx.both(ctx.infeasible(b), lambda n: n in eb))
+            esc = [r for r in b.returns() if r in seen]
         R.ob('W8-build-events', b.path, not esc, 'every completed build is bracketed by build_start / build_end' if not esc
              else 'the build entry point can return without emitting build_start / build_end (a recording tracker keeps showing the previous build):\n' + b.fmt_path(b.witness(seen, esc[0])),
              ctx.where(b), props=P)
@@ -152,6 +238,14 @@ def rule_tracker(ctx):
             cs = b.find_calls(lambda c: c.trait == TRK)
             good = len(cs) == 2 and all(c.name == b.name for c in cs)
             why = 'does not forward to `%s` exactly twice (calls: %s)' % (b.name, [c.name for c in cs])
+            if len(cs) == 1 and cs[0].name == b.name:
+                # `for t in [&mut self.0 as &mut dyn Tracker, &mut self.1] { t.m(args) }` (the array possibly built by a helper)
+                lw = _forward_loop(ctx, b, cs[0])
+                if lw is True:
+                    R.ob('W4-forward', b.path, True, 'forwards once to each child (loop over both children) with the same arguments', ctx.where(b), props=P)
+                    continue
+                if lw:
+                    why = lw
             if good:
                 sides = []
                 for c in cs:
@@ -590,10 +684,23 @@ def rule_map(ctx):
     for b in ens:
         vty = b.generics[1] if len(b.generics) > 1 else None
         repl = []  # (body, block) of replacement operations
-        for x in F.with_closures(b):
-            if x.kind == 'Closure':
+        # a named function handed to `and_modify` / `or_insert_with` stands where a closure would: its first parameter is the stored value
+        import flatten as _fl
+        fn_items = {}  # body id -> name of its type parameter that is instantiated with the requested value type
+        for c in b.calls.values():
+            if c.name in ('and_modify', 'or_insert_with') and len(c.args) > 1:
+                raw = b.blocks[c.bb]['term']['args'][1]
+                fb, kind = _fl._callable_of(F, b.d, raw)
+                if fb is not None and kind == 'fn':
+                    ga = [b.fix(g_) for g_ in raw['k']['fn'].get('gargs', [])]
+                    fn_items[fb.id] = next((fb.generics[i] for i, g_ in enumerate(ga) if g_ == vty and i < len(fb.generics)), vty)
+        xs = list(F.with_closures(b)) + [F.bodies[i] for i in fn_items]
+        vty_of = lambda x: fn_items.get(x.id, vty)
+        for x in xs:
+            if x.kind == 'Closure' or x.id in fn_items:
+                val_arg = 2 if x.kind == 'Closure' else 1
                 for (bb, si, pl, rv, ln) in x.stores:
-                    if all(o.kind == 'arg' and o.key == 2 for o in x.orig_local(pl[0])):
+                    if all(o.kind == 'arg' and o.key == val_arg for o in x.orig_local(pl[0])):
                         repl.append((x, bb))
             else:
                 # `let v = occupied.into_mut(); ... *v = new` (also get_mut): a store through the reference into the occupied slot
@@ -607,14 +714,14 @@ def rule_map(ctx):
         why = 'no replacement of an existing value found'
         for x, bb in repl:
             req = x.edges_required_for(bb)
-            ok_guard = any(gd.kind == 'bool' and gd.truth() is False and any(sc.name == 'is' and sc.gargs and sc.gargs[-1] == vty for sc in gd.subject_calls()) for gd in req)
+            ok_guard = any(gd.kind == 'bool' and gd.truth() is False and any(sc.name == 'is' and sc.gargs and sc.gargs[-1] == vty_of(x) for sc in gd.subject_calls()) for gd in req)
             if not ok_guard:
                 good = False
                 why = 'an existing value is replaced without testing that its type differs from the requested one'
         R.ob('M3-replace', b.path, good, 'an existing state value is replaced only if it is not of the requested type' if good else why, ctx.where(b), props=P)
         oi = [c for x in F.with_closures(b) for c in x.calls.values() if c.name in ('or_insert_with', 'or_insert', 'or_default') or (c.name == 'insert' and 'VacantEntry' in (c.impl_self or ''))]
         R.ob('M3-vacant', b.path, bool(oi), 'a missing state value is created' if oi else 'vacant entry not filled', ctx.where(b), props=P)
-        ty_is = [c for x in F.with_closures(b) for c in x.calls.values() if c.name == 'is']
+        ty_is = [c for x in xs for c in x.calls.values() if c.name == 'is']
         pit = [c for c in ty_is if 'Box<' in (c.self_ty or '')]
         R.ob('M3-unboxed', b.path, not pit and bool(ty_is), 'the type test looks at the value inside the box' if not pit and ty_is else 'type test missing or applied to the Box itself', ctx.where(b), props=P)
     # the same helper without the entry API: `if !(map.get(id) is Some(v) && v.is::<V>()) { map.insert(id, default) }; map.get_mut(id)`
